@@ -26,6 +26,10 @@ def alphabet(m):
     from fractions import Fraction
     if abs(Fraction(repr(m.quoted_master())) - m.master) >= Fraction(1, 1000):
         evs.append(('pf_sub_quoted', '1'))
+    # ... and a portfolio's cash as quoted, withdrawn back to the master (same residue rule; cash must be positive)
+    for p in ('1', '2'):
+        if p in m.pfs and m.pfs[p].cash > 0 and abs(Fraction(repr(m.quoted_cash(p))) - m.pfs[p].cash) >= Fraction(1, 1000):
+            evs.append(('pf_wd_quoted', p))
     for p in ('1', '2'):
         for a, qs in (('A', (3, -3, 5, -8)), ('Bq', (5, -8))):
             for q in qs:
